@@ -1,7 +1,324 @@
-(* props/C02.v — placeholder obligations while the validator iffs are being closed. *)
-From Coq Require Import List NArith ZArith String.
+(* props/C02.v — Well-formed templates are accepted (no false rejections).
+
+   Mirror of props/C01.v (read its header).  C02_table: the frozen 2023-09 table is below the
+   live table ("the code accepts no less": a limit TIGHTENED in the code breaks C02_table and
+   leaves C01_table alone).  One theorem per validator: whenever the declarative rule of WF.v
+   holds, the validator as coded answers true (it is no stricter than the rule).
+   C02_complete: a well-formed document is accepted; C02_flip: a document on which some rule
+   fails at some visited object (or that does not fit the table) is rejected. *)
+From Coq Require Import List NArith ZArith Bool String Permutation.
 Import ListNotations.
-Require Import OJD.Base OJD.Json OJD.Schema OJD.Generated.
+Require Import OJD.Base OJD.Lexer OJD.Json OJD.Schema OJD.Generated OJD.SchemaSpec OJD.SchemaOrder
+               OJD.Charsets OJD.Numerals OJD.FsRefs OJD.CreateJob OJD.RangeExpr OJD.Comb OJD.ScopeWalk
+               OJD.DepGraph OJD.DepGraphSpec OJD.Parse OJD.Validators OJD.Accept
+               OJD.WF OJD.AcceptMono OJD.AcceptRules OJD.AcceptCap OJD.AcceptDeps OJD.AcceptProofs.
+Require Import OJDProps.C01.
 Local Open Scope string_scope.
-Example C02_schema_has_root : match lookup_cls Generated.schema "JobTemplate" with Some _ => True | None => False end.
-Proof. vm_compute. exact I. Qed.
+Local Open Scope list_scope.
+
+(* ---------------------------------------------------------------- 1. the table *)
+Theorem C02_table : schema_le spec_schema Generated.schema = true.
+Proof. exact table_le_spec_code. Qed.
+Print Assumptions C02_table.
+
+Theorem C02_structural : forall classify j v,
+  decode_job_on spec_schema classify j = Ok v -> decode_job classify j = Ok v.
+Proof. exact structural_spec_code. Qed.
+Print Assumptions C02_structural.
+
+Theorem C02_structural_env : forall classify j v,
+  decode_env_on spec_schema classify j = Ok v -> decode_env classify j = Ok v.
+Proof. exact structural_env_spec_code. Qed.
+Print Assumptions C02_structural_env.
+
+(* the structural engine reads its hooks only through their values *)
+Theorem C02_hooks_ext : forall SC, self_closed SC = true ->
+  forall classify pre1 pre2 post1 post2,
+    (forall c raw, pre1 c raw = pre2 c raw) ->
+    (forall c raw fs, post1 c raw fs = post2 c raw fs) ->
+    forall fuel root j,
+      parse_cls SC classify pre1 post1 fuel root j = parse_cls SC classify pre2 post2 fuel root j.
+Proof. exact parse_cls_hooks_ext. Qed.
+Print Assumptions C02_hooks_ext.
+
+(* ---------------------------------------------------------------- 2. the validators *)
+Theorem C02_nodup : forall l, NoDup l -> nodupb l = true.
+Proof. exact (fun l => proj2 (nodupb_iff l)). Qed.
+Print Assumptions C02_nodup.
+
+Theorem C02_unique_names : forall v, UniqueNames v -> unique_names v = true.
+Proof. exact (fun v => proj2 (unique_names_iff v)). Qed.
+Print Assumptions C02_unique_names.
+
+Theorem C02_embedded_files : forall fs, EmbeddedFilesRule fs -> unique_names (fget "embeddedFiles" fs) = true.
+Proof. exact (fun fs => proj2 (embedded_files_rule_iff fs)). Qed.
+Print Assumptions C02_embedded_files.
+
+Theorem C02_deps : forall steps,
+  DepsRule steps ->
+  (nodupb (names_of steps)
+   && negb (DepGraph.has_cycle (dep_job steps))
+   && forallb (fun st => forallb (fun d => mem_str d (names_of steps)) (dep_names st)) (mitems steps)) = true.
+Proof. exact (fun s => proj2 (deps_rule_iff s)). Qed.
+Print Assumptions C02_deps.
+
+Theorem C02_deps_names : forall steps,
+  DepsRuleNames steps ->
+  (nodupb (names_of steps)
+   && negb (DepGraph.has_cycle (dep_job steps))
+   && forallb (fun st => forallb (fun d => mem_str d (names_of steps)) (dep_names st)) (mitems steps)) = true.
+Proof. exact (fun s => proj2 (deps_names_rule_iff s)). Qed.
+Print Assumptions C02_deps_names.
+
+Theorem C02_step : forall c fs,
+  StepRule fs ->
+  (nodupb (dep_names (MModel c fs)) && unique_names (fget "stepEnvironments" fs)
+   && negb (mem_str (mstr (fget "name" fs)) (dep_names (MModel c fs)))) = true.
+Proof. exact (fun c fs => proj2 (step_rule_iff c fs)). Qed.
+Print Assumptions C02_step.
+
+Theorem C02_env_disjoint : forall fs,
+  EnvDisjointRule fs ->
+  (let jenv := env_names (fget "jobEnvironments" fs) in
+   forallb (fun st => forallb (fun e => negb (mem_str e jenv)) (env_names (fget "stepEnvironments" (model_fields st))))
+           (mitems (fget "steps" fs))) = true.
+Proof. exact (fun fs => proj2 (env_disjoint_rule_iff fs)). Qed.
+Print Assumptions C02_env_disjoint.
+
+Theorem C02_job_template : forall classify raw fs,
+  JobTemplateRule classify raw fs -> job_template_ok classify raw fs = true.
+Proof. exact (fun cl raw fs => proj2 (job_template_rule_iff cl raw fs)). Qed.
+Print Assumptions C02_job_template.
+
+Theorem C02_combination : forall classify fs,
+  CombinationRule classify fs ->
+  (nodupb (names_of (fget "taskParameterDefinitions" fs))
+   && match fget "combination" fs with
+      | MStr s => match Comb.parse_str classify s with
+                  | Ok t => Comb.accounting false (names_of (fget "taskParameterDefinitions" fs)) (Comb.collect_ids t)
+                  | Raise _ => false
+                  end
+      | _ => true
+      end) = true.
+Proof. exact (fun cl fs => proj2 (combination_rule_iff cl fs)). Qed.
+Print Assumptions C02_combination.
+
+Theorem C02_string_param : forall fs, StringParamRule fs -> string_param_ok fs = true.
+Proof. exact (fun fs => proj2 (string_param_rule_iff fs)). Qed.
+Print Assumptions C02_string_param.
+
+Theorem C02_num_param : forall fs, NumParamRule fs -> num_param_ok fs = true.
+Proof. exact (fun fs => proj2 (num_param_rule_iff fs)). Qed.
+Print Assumptions C02_num_param.
+
+Theorem C02_string_ui : forall fs, StringUiRule fs -> string_ui_ok fs = true.
+Proof. exact (fun fs => proj2 (string_ui_rule_iff fs)). Qed.
+Print Assumptions C02_string_ui.
+
+Theorem C02_path_ui : forall fs, PathUiRule fs -> path_ui_ok fs = true.
+Proof. exact (fun fs => proj2 (path_ui_rule_iff fs)). Qed.
+Print Assumptions C02_path_ui.
+
+Theorem C02_num_ui : forall fs, NumUiRule fs -> num_ui_ok fs = true.
+Proof. exact (fun fs => proj2 (num_ui_rule_iff fs)). Qed.
+Print Assumptions C02_num_ui.
+
+Theorem C02_capability_name : forall classify standard required_prefix name,
+  CapName classify standard required_prefix name ->
+  capability_name_ok classify standard required_prefix name = true.
+Proof. exact (fun cl st p n => proj2 (capability_name_iff cl st p n)). Qed.
+Print Assumptions C02_capability_name.
+
+Theorem C02_amount : forall classify fs,
+  AmountRule classify fs ->
+  (capability_name_ok classify Generated.std_amount_caps $"amount." (mstr (fget "name" fs))
+   && (match num_of (fget "min" fs) with Some v => num_leb (num_of_Z 0) v | None => true end)
+   && (match num_of (fget "max" fs) with Some v => num_ltb (num_of_Z 0) v | None => true end)
+   && opt_le (fget "min" fs) (fget "max" fs)) = true.
+Proof. exact (fun cl fs => proj2 (amount_rule_iff cl fs)). Qed.
+Print Assumptions C02_amount.
+
+Theorem C02_attribute_list : forall classify name v is_allof,
+  AttrListRule classify name v is_allof -> attribute_list_ok classify name v is_allof = true.
+Proof. exact (fun cl n v a => proj2 (attribute_list_rule_iff cl n v a)). Qed.
+Print Assumptions C02_attribute_list.
+
+Theorem C02_attribute : forall classify fs,
+  AttributeRule classify fs ->
+  (capability_name_ok classify (map fst Generated.std_attr_caps) $"attr." (mstr (fget "name" fs))
+   && attribute_list_ok classify (fget "name" fs) (fget "anyOf" fs) false
+   && attribute_list_ok classify (fget "name" fs) (fget "allOf" fs) true) = true.
+Proof. exact (fun cl fs => proj2 (attribute_rule_iff cl fs)). Qed.
+Print Assumptions C02_attribute.
+
+Theorem C02_host_req : forall fs,
+  HostReqRule fs ->
+  ((match fget "amounts" fs with MList [] => false | _ => true end)
+   && (match fget "attributes" fs with MList [] => false | _ => true end)
+   && negb (is_none (fget "amounts" fs) && is_none (fget "attributes" fs))
+   && N.leb (N.of_nat (List.length (mitems (fget "amounts" fs)) + List.length (mitems (fget "attributes" fs))))
+            Generated.max_requirements) = true.
+Proof. exact (fun fs => proj2 (host_req_rule_iff fs)). Qed.
+Print Assumptions C02_host_req.
+
+Theorem C02_env : forall fs,
+  EnvRule fs -> (match fget "variables" fs with MDict [] => false | _ => true end) = true.
+Proof. exact (fun fs => proj2 (env_rule_iff fs)). Qed.
+Print Assumptions C02_env.
+
+Theorem C02_int_range : forall classify fs,
+  IntRangeRule classify fs ->
+  (match fget "range" fs with
+   | MList items => forallb (fun it => match it with MFmt s => has_refs classify s | _ => true end) items
+   | MFmt s => if has_refs classify s then true
+               else match RangeExpr.from_str false false classify s with Ok _ => true | Raise _ => false end
+   | _ => true
+   end) = true.
+Proof. exact (fun cl fs => proj2 (int_range_rule_iff cl fs)). Qed.
+Print Assumptions C02_int_range.
+
+Theorem C02_float_range : forall classify fs,
+  FloatRangeRule classify fs ->
+  forallb (fun it => match it with MFmt s => has_refs classify s | _ => true end) (mitems (fget "range" fs)) = true.
+Proof. exact (fun cl fs => proj2 (float_range_rule_iff cl fs)). Qed.
+Print Assumptions C02_float_range.
+
+Theorem C02_post_hook : forall classify c raw fs, Rule classify c raw fs -> post_hook classify c raw fs = true.
+Proof. exact (fun cl c raw fs => proj2 (post_hook_iff cl c raw fs)). Qed.
+Print Assumptions C02_post_hook.
+
+Theorem C02_pre_hook : forall c raw, PreRule c raw -> pre_hook c raw = true.
+Proof. exact (fun c raw => proj2 (pre_hook_iff c raw)). Qed.
+Print Assumptions C02_pre_hook.
+
+(* ---------------------------------------------------------------- 3. documents *)
+Theorem C02_complete : forall classify j,
+  WFdoc classify "JobTemplate" j -> exists v, decode_job classify j = Ok v.
+Proof. exact job_complete. Qed.
+Print Assumptions C02_complete.
+
+Theorem C02_complete_env : forall classify j,
+  WFdoc classify "EnvironmentTemplate" j -> exists v, decode_env classify j = Ok v.
+Proof. exact env_complete. Qed.
+Print Assumptions C02_complete_env.
+
+Theorem C02_flip : forall classify j,
+  ~ WFdoc classify "JobTemplate" j -> forall v, decode_job classify j <> Ok v.
+Proof. exact job_flip. Qed.
+Print Assumptions C02_flip.
+
+Theorem C02_flip_env : forall classify j,
+  ~ WFdoc classify "EnvironmentTemplate" j -> forall v, decode_env classify j <> Ok v.
+Proof. exact env_flip. Qed.
+Print Assumptions C02_flip_env.
+
+(* ---------------------------------------------------------------- non-vacuity *)
+(* the example template of C01.v is well-formed; each of its mutations is not *)
+Example C02_complete_nonvacuous : WFdoc ascii_class "JobTemplate" ex_good.
+Proof.
+  apply (C01_sound ascii_class ex_good) with (v := match decode_job ascii_class ex_good with Ok v => v | Raise _ => MNone end).
+  vm_compute. reflexivity.
+Qed.
+
+Example C02_structural_nonvacuous : is_ok (decode_job_on spec_schema ascii_class ex_good) = true.
+Proof. vm_compute. reflexivity. Qed.
+
+Lemma rejected_not_wf j e : decode_job ascii_class j = Raise e -> ~ WFdoc ascii_class "JobTemplate" j.
+Proof. intros H W. destruct (C02_complete ascii_class j W) as (v & E). rewrite E in H. discriminate H. Qed.
+
+Example C02_flip_nonvacuous :
+  ~ WFdoc ascii_class "JobTemplate" (ex_doc "(A, B_1)" "A" "A") /\        (* duplicate step name *)
+  ~ WFdoc ascii_class "JobTemplate" (ex_doc "(A, B_1)" "B" "C") /\        (* dangling dependency *)
+  ~ WFdoc ascii_class "JobTemplate" (ex_doc "A * C" "B" "A").             (* unknown + missing identifier *)
+Proof. repeat split; apply (rejected_not_wf _ ValueError); vm_compute; reflexivity. Qed.
+
+(* a tightened limit is seen only by C02_table *)
+Example C02_table_nonvacuous :
+  schema_le spec_schema (dep_len 63 Generated.schema) = false /\
+  schema_le spec_schema (dep_len 65 Generated.schema) = true /\
+  schema_le spec_schema (int_range_len 1000 Generated.schema) = false /\
+  schema_le spec_schema (int_range_len 2000 Generated.schema) = true.
+Proof. vm_compute. repeat split. Qed.
+
+Example C02_hooks_ext_nonvacuous : self_closed spec_schema = true /\ self_closed Generated.schema = true.
+Proof. vm_compute. split; reflexivity. Qed.
+
+(* the rules hold of the inputs the C01 examples use (so the hypotheses below are satisfiable) *)
+Example C02_nodup_nonvacuous : NoDup [$"A"; $"B_1"].
+Proof. apply C01_nodup. vm_compute. reflexivity. Qed.
+Example C02_unique_names_nonvacuous : UniqueNames (MList [named "A"; named "B"]).
+Proof. apply C01_unique_names. vm_compute. reflexivity. Qed.
+Example C02_embedded_files_nonvacuous : EmbeddedFilesRule [("embeddedFiles", MList [named "f1"; named "f2"])].
+Proof. apply C01_embedded_files. vm_compute. reflexivity. Qed.
+Example C02_deps_nonvacuous : DepsRule ex_steps /\ ~ DepsRule ex_steps_cyclic.
+Proof.
+  split; [apply C01_deps; vm_compute; reflexivity|].
+  intros H. apply C02_deps in H. vm_compute in H. discriminate H.
+Qed.
+Example C02_deps_names_nonvacuous : DepsRuleNames ex_steps.
+Proof. apply C01_deps_names. vm_compute. reflexivity. Qed.
+Example C02_step_nonvacuous : StepRule (model_fields (ex_step "C" ["A"; "B"])).
+Proof. apply (C01_step "StepTemplate"). vm_compute. reflexivity. Qed.
+Example C02_env_disjoint_nonvacuous : EnvDisjointRule (ex_env_fs "E1" "E2").
+Proof. apply C01_env_disjoint. vm_compute. reflexivity. Qed.
+Example C02_job_template_nonvacuous : JobTemplateRule ascii_class (JObj []) [("steps", ex_steps)].
+Proof. apply C01_job_template. vm_compute. reflexivity. Qed.
+Example C02_combination_nonvacuous :
+  CombinationRule ascii_class (ex_space "(A, B_1) * C") /\ ~ CombinationRule ascii_class (ex_space "A * C").
+Proof.
+  split; [apply C01_combination; vm_compute; reflexivity|].
+  intros H. apply C02_combination in H. vm_compute in H. discriminate H.
+Qed.
+Example C02_string_param_nonvacuous : StringParamRule (ex_sparam 2 3 "abc") /\ ~ StringParamRule (ex_sparam 3 2 "abc").
+Proof.
+  split; [apply C01_string_param; vm_compute; reflexivity|].
+  intros H. apply C02_string_param in H. vm_compute in H. discriminate H.
+Qed.
+Example C02_num_param_nonvacuous : NumParamRule (ex_nparam 0 (MDec 150 (-2))) /\ ~ NumParamRule (ex_nparam 1 (MInt 0)).
+Proof.
+  split; [apply C01_num_param; vm_compute; reflexivity|].
+  intros H. apply C02_num_param in H. vm_compute in H. discriminate H.
+Qed.
+Example C02_string_ui_nonvacuous : StringUiRule (ex_sui "CHECK_BOX" (MList [MStr $"True"; MStr $"false"])).
+Proof. apply C01_string_ui. vm_compute. reflexivity. Qed.
+Example C02_path_ui_nonvacuous : PathUiRule (ex_pui "CHOOSE_INPUT_FILE" "FILE" (MList [named "f"])).
+Proof. apply C01_path_ui. vm_compute. reflexivity. Qed.
+Example C02_num_ui_nonvacuous : NumUiRule (ex_nui "SPIN_BOX" (MInt 2) MNone).
+Proof. apply C01_num_ui. vm_compute. reflexivity. Qed.
+Example C02_capability_name_nonvacuous :
+  CapName ascii_class Generated.std_amount_caps $"amount." $"Acme:amount.license.maya_2" /\
+  ~ CapName ascii_class Generated.std_amount_caps $"amount." $"amount.worker.x".
+Proof.
+  split; [apply C01_capability_name; vm_compute; reflexivity|].
+  intros H. apply C02_capability_name in H. vm_compute in H. discriminate H.
+Qed.
+Example C02_amount_nonvacuous : AmountRule ascii_class (ex_amount "amount.worker.vcpu" (MInt 0) (MDec 5 (-1))).
+Proof. apply C01_amount. vm_compute. reflexivity. Qed.
+Example C02_attribute_list_nonvacuous :
+  AttrListRule ascii_class (MFmt $"attr.worker.os.family") (MList [MFmt $"linux"]) true.
+Proof. apply C01_attribute_list. vm_compute. reflexivity. Qed.
+Example C02_attribute_nonvacuous :
+  AttributeRule ascii_class [("name", MFmt $"attr.worker.cpu.arch"); ("anyOf", MList [MFmt $"x86_64"; MFmt $"arm64"])].
+Proof. apply C01_attribute. vm_compute. reflexivity. Qed.
+Example C02_host_req_nonvacuous : HostReqRule [("amounts", MList [named "a"])] /\ ~ HostReqRule [].
+Proof.
+  split; [apply C01_host_req; vm_compute; reflexivity|].
+  intros H. apply C02_host_req in H. vm_compute in H. discriminate H.
+Qed.
+Example C02_env_nonvacuous : EnvRule [("variables", MDict [($"K", MFmt $"v")])].
+Proof. apply C01_env. vm_compute. reflexivity. Qed.
+Example C02_int_range_nonvacuous : IntRangeRule ascii_class [("range", MFmt $"1-10:2,20")].
+Proof. apply C01_int_range. vm_compute. reflexivity. Qed.
+Example C02_float_range_nonvacuous : FloatRangeRule ascii_class [("range", MList [MDec 15 (-1); MFmt $"{{Param.P}}"])].
+Proof. apply C01_float_range. vm_compute. reflexivity. Qed.
+Example C02_post_hook_nonvacuous :
+  Rule ascii_class "JobStringParameterDefinition" JNull
+    (ex_sparam 2 3 "abc" ++ [("userInterface", MModel "UI" [("control", MStr $"DROPDOWN_LIST")])]).
+Proof. apply C01_post_hook. vm_compute. reflexivity. Qed.
+Example C02_pre_hook_nonvacuous :
+  PreRule "AmountRequirementTemplate" (JObj [($"name", JStr $"amount.x.y"); ($"min", JInt 1)]) /\
+  ~ PreRule "AmountRequirementTemplate" (JObj [($"name", JStr $"amount.x.y"); ($"min", JNull)]).
+Proof.
+  split; [apply C01_pre_hook; vm_compute; reflexivity|].
+  intros H. apply C02_pre_hook in H. vm_compute in H. discriminate H.
+Qed.
